@@ -226,4 +226,17 @@ PROPS = {
         floors=dict(quick=dict(distinct_nontrivial=128, rounds_with_at_least_half_the_threads_overlapping=16, tsan_log_files=0),
                     thorough=dict(distinct_nontrivial=2000, rounds_with_at_least_half_the_threads_overlapping=100)),
     ),
+
+    'C20': dict(
+        technique='valgrind memcheck definedness client checks on every output byte / getter value of a mixed workload, plus a differential monitor (operator new fill patterns 0xA5 / 0x3C, freed blocks scribbled; -ftrivial-auto-var-init=zero versus =pattern builds) comparing output digests',
+        level_text='Exploration: a seeded mixed workload (encode+decode of every payload kind, padded and unpadded frames, control / vendor / unknown-type messages whose header leaves id bytes unused, aggregated frames with invalid payloads, interleaved reassembly with trailing bytes, payload builders, TECMP conversion incl. LIN, status tracker) runs (1) under memcheck with VALGRIND_CHECK_MEM_IS_DEFINED on every frame byte, packet getter value, payload byte and re-serialised header, and every uninitialised-value error with a library frame taken from the valgrind log; (2) natively with fresh heap blocks filled with two different patterns (digests per case must be equal) in two builds whose uninitialised stack variables are zero / pattern filled (per-shard digest folds must be equal).',
+        level_note='Trusted: valgrind memcheck bit-precise definedness tracking (binary built without sanitizers and without auto-var-init for this stage); the replaced operator new/delete in the harness. "All prior heap contents" is modelled by two fill patterns plus the definedness checker.',
+        stages=[dict(driver='drv_uninit', flavour='plain', runner='memcheck', shards=dict(quick=16, thorough=16)),
+                dict(driver='drv_uninit', flavour='plain0', fold_feature='case_digest_fold'),
+                dict(driver='drv_uninit', flavour='plainP', fold_feature='case_digest_fold')],
+        rule='cases = workload cases of 6 steps on fresh objects; one evaluation = one case under memcheck or one case run twice with different heap fill patterns. distinct_nontrivial = distinct generator-label sequences (generator, sub-kind, padded?, message-type class) observed; the memcheck stage alone must reach every generator class (feature c20_generators_under_memcheck).',
+        assumptions=COMMON_ASSUME[1:] + ['valgrind 3.19 memcheck reports every use of undefined values it is designed to detect; client requests are honoured'],
+        floors=dict(quick={'distinct_nontrivial': 2000, 'memcheck_client_checks': 400000, 'memcheck_cases': 6400, 'differential_cases': 320000, 'feat:c20_generators_under_memcheck': 19},
+                    thorough={'distinct_nontrivial': 5000, 'memcheck_cases': 60000, 'feat:c20_generators_under_memcheck': 19}),
+    ),
 }
